@@ -438,6 +438,7 @@ class ndarray:
     @staticmethod
     def _make(cells, dt, klass=None, buf=None, idx=None, nd=1):
         a = object.__new__(klass or ndarray)
+        a._own = buf is None          # flags.owndata: this array allocated its buffer (views and .view(cls) do not)
         a._buf = buf if buf is not None else Buffer(list(cells))
         a._idx = idx if idx is not None else list(range(len(a._buf.cells)))
         a.dtype = _as_dtype(dt)
@@ -449,6 +450,10 @@ class ndarray:
     def _like(self, cells, dt=None, klass=None):
         return ndarray._make(cells, dt or self.dtype, klass or type(self))
     # --- basic attributes
+    @property
+    def flags(self):
+        import types
+        return types.SimpleNamespace(owndata=builtins.bool(getattr(self, "_own", False)), writeable=True, c_contiguous=True)
     @property
     def ndim(self): return self._nd
     @property
@@ -562,7 +567,9 @@ class ndarray:
         if how == "view":
             return ndarray._make(None, self.dtype, type(self), self._buf, [self._idx[i] for i in p])
         cs = self._buf.cells
-        return ndarray._make([cs[self._idx[i]] for i in p], self.dtype, type(self))
+        r = ndarray._make([cs[self._idx[i]] for i in p], self.dtype, type(self))
+        r._own = type(self) is ndarray     # measured: fancy / mask indexing of a subclass gives a view of a fresh base array
+        return r
     def __setitem__(self, key, value):
         how, p = self._positions(key)
         pos = [p] if how == "scalar" else p
@@ -1070,7 +1077,9 @@ def delete(a, idx, axis=None):
             raise IndexError("arrays used as indices must be of integer (or boolean) type")
         drop = {_pos(SymI64(k) if z3.is_expr(k) else k, len(a)) for k in (idx._cells() if isinstance(idx, ndarray) else idx)}
     cs = a._cells()
-    return ndarray._make([c for i, c in enumerate(cs) if i not in drop], a.dtype, type(a))
+    r = ndarray._make([c for i, c in enumerate(cs) if i not in drop], a.dtype, type(a))
+    r._own = type(a) is ndarray            # measured (owndata of np.delete / np.unique on a subclass is False)
+    return r
 
 def nonzero(x):
     if not isinstance(x, ndarray): x = array(x)
@@ -1145,6 +1154,7 @@ def unique(a, return_index=False, return_inverse=False, return_counts=False, equ
         groups.append([i])
     klass = type(a)
     out = [ndarray._make([cs[g[0]] for g in groups], a.dtype, klass)]
+    out[0]._own = klass is ndarray
     if return_index:
         out.append(ndarray._make([z3.BitVecVal(g[0], 64) for g in groups], dtype(int), klass))
     if return_inverse:
